@@ -86,9 +86,9 @@ def shards(quick):
         for m in ALL_MODES for n in (1, 16, 33)
     ] + [
         shard("ctvarA", Masters=q(["e"]), MasterClasses=q(["r1", "nm2"]), ModeSet=q(ALL_MODES), EncSet=q(["raw", "asn1"]), UidLens=S([0, 60, 200]), MLens=S([1, 16, 100]),
-              Hids=S([3, 255]), RCs=q(["r1", "nm1"]), Variants=q(ALL_VARIANTS), Tamper=T, workers=4),
+              Hids=S([3]), RCs=q(["r1", "nm1"]), Variants=q(ALL_VARIANTS), Tamper=T, workers=4),
         shard("ctvarB", Masters=q(["e"]), MasterClasses=q(["r2", "one"]), ModeSet=q(ALL_MODES), EncSet=q(["raw", "asn1"]), UidLens=S([1, 63, 64, 127]), MLens=S([15, 17, 65, 230]),
-              Hids=S([0, 1]), RCs=q(["r2", "one"]), Variants=q(ALL_VARIANTS), Tamper=T, workers=4),
+              Hids=S([0]), RCs=q(["r2"]), Variants=q(ALL_VARIANTS), Tamper=T, workers=4),
         shard("kxtam", Masters=q(["e"]), KxLens=S([3]), Hids=S([2]), KxVars=q(KX_ALL), Tamper=T, TamperAll=T, Masks=S([1, 2, 128, 255])),
         shard("kxvarA", Masters=q(["e"]), MasterClasses=q(["r2", "one"]), KxLens=S([0, 5, 64]), Hids=S([2, 255]), KxKLens=S([16, 133]), KxVars=q(KX_ALL), Tamper=T, workers=4),
         shard("kxvarB", Masters=q(["e"]), MasterClasses=q(["r1", "nm2"]), KxLens=S([1, 63, 200]), Hids=S([0, 1]), KxKLens=S([48, 300]), KxVars=q(KX_ALL), Tamper=T, workers=4),
@@ -281,7 +281,16 @@ def run(ctx):
         raise core.Infra("KAT_SM9 did not pass")
     allt = core.cat_files([outs[s["name"]] for s in sh], os.path.join(ctx.scratch, "c10.ndjson"))
     rc = replay_cfgs()
-    ctx.replay_all(allt, rc, per_trace_timeout=60)
+    if quick:
+        ctx.replay_all(allt, rc, per_trace_timeout=60)
+    else:
+        # the every-position shards (two thirds of the traces differ only in the altered byte) run on the four field-arithmetic
+        # backends; the others additionally with the scalar SM3 tier
+        tam = [s["name"] for s in sh if s["consts"]["TamperAll"] == "TRUE"]
+        ftam = core.cat_files([outs[n] for n in tam], os.path.join(ctx.scratch, "c10-tam.ndjson"))
+        fvar = core.cat_files([outs[s["name"]] for s in sh if s["name"] not in tam], os.path.join(ctx.scratch, "c10-var.ndjson"))
+        ctx.replay_all(fvar, rc, per_trace_timeout=60)
+        ctx.replay_all(ftam, cfgs.K_EC, per_trace_timeout=60)
     ctx.binding_guard(outs[sh[0]["name"]], rc[0])
     ctx.binding_guard(outs["wraptam"], rc[0])
     for n in ("sigtamA", "ctvar" if quick else "ctvarA", "kxtam"):
